@@ -133,7 +133,7 @@ func genC04(t *rapid.T, tier string) (*World, any) {
 		full["anti_evasion_suffix."+sh] = pick(t, suffixPool[sh], "S-"+sh)
 		full["anti_evasion_no_space_suffix."+sh] = pick(t, noSpacePool[sh], "N-"+sh)
 	}
-	p.ConfigMode = pick(t, []string{"complete", "complete", "complete", "partial", "padded", "extra-keys", "empty", "torn", "type-error", "other-name", "absent", "open-eacces", "open-eloop", "is-directory"}, "cfgmode")
+	p.ConfigMode = pick(t, []string{"complete", "complete", "complete", "partial", "padded", "extra-keys", "empty", "torn", "type-error", "other-name", "other-name-missing", "absent", "open-eacces", "open-eloop", "is-directory"}, "cfgmode")
 	written := map[string]cfgPattern{}
 	for k, v := range full {
 		written[k] = v
@@ -200,6 +200,10 @@ func genC04(t *rapid.T, tier string) (*World, any) {
 	case "other-name":
 		w.Put("crs/regex-assembly/alternative.yml", render(false))
 		w.Put(cfgPath, "patterns:\n  anti_evasion:\n    unix: WRONGFILE\n    windows: WRONGFILE\n")
+	case "other-name-missing":
+		// -f selects a file that does not exist; the populated default file next to it is not what was asked for
+		w.Put(cfgPath, render(false))
+		effective = false
 	case "absent":
 		effective = false
 	case "open-eacces", "open-eloop":
@@ -325,6 +329,9 @@ func evalC04(sc *Scenario, sim *Sim) ([]Violation, bool, string) {
 	if p.ConfigMode == "other-name" {
 		argv = []string{"-f", "alternative.yml", "regex", "generate", "932100"}
 	}
+	if p.ConfigMode == "other-name-missing" {
+		argv = []string{"-f", "nosuchfile.yaml", "regex", "generate", "932100"}
+	}
 	r := sb.Run(Step{Argv: argv, Cwd: "crs", Plan: p.Plan})
 	var viol []Violation
 	add := func(oracle, what, msg, detail string) {
@@ -342,7 +349,7 @@ func evalC04(sc *Scenario, sim *Sim) ([]Violation, bool, string) {
 	}
 	// failed configurations must behave exactly like the explicit empty configuration
 	switch p.ConfigMode {
-	case "empty", "torn", "type-error", "absent", "open-eacces", "open-eloop", "is-directory":
+	case "empty", "torn", "type-error", "absent", "other-name-missing", "open-eacces", "open-eloop", "is-directory":
 		ew := sc.World.Clone()
 		delete(ew.Files, "crs/regex-assembly/toolchain.yaml")
 		ew.Dirs = nil
